@@ -1,4 +1,4 @@
-import MsqProofs.Lemmas.LexSpec
+import MsqModel.Lex.Spec
 import MsqModel.Gen.LexCfg1
 /-! C05 table obligation for option setting 1 (4·IGNORE_SPACE + 2·IGNORE_LINEBREAK + IGNORE_COMMENT): every cell of the
 regenerated table — all probe codes of every row, the default rows, the end-of-text rows — equals the specification
